@@ -94,6 +94,14 @@ def check_pos(got, want, where, viol, case, local=False):
         viol.append(("position/height", "%s: denotes height %.6f, original %.6f" % (where, h, want[2]), case))
 
 
+def geo(p):
+    """GeoCoords(lon, lat, hgt) as the caller writes it: a whole height is handed over as a Python int for half of the positions"""
+    from tracklib.core.obs_coords import GeoCoords
+    if p[2] == int(p[2]) and int(abs(p[0]) * 1000 + abs(p[1]) * 100) % 2 == 0:
+        return GeoCoords(p[0], p[1], int(p[2]))
+    return GeoCoords(*p)
+
+
 def used_geo(p, other):
     """a position OBJECT with a past: it stood somewhere else, was converted there, and was then moved by assigning its public
     attributes lon / lat / hgt (what ECEFCoords.toGeoCoords itself does): it denotes the position it holds now"""
@@ -144,7 +152,7 @@ def replay(cases):
             try:
                 with core.quiet():
                     past = (len(label) + int(abs(p1[0]) + abs(p2[1]))) % 2 == 0
-                    tr = Track([Obs(used_geo(p, b2) if past else GeoCoords(*p), ObsTime()) for p in pts])
+                    tr = Track([Obs(used_geo(p, b2) if past else geo(p), ObsTime()) for p in pts])
                 for si, s in enumerate(hist):
                     where = "track history [%s] step %d" % (label, si + 1)
                     with core.quiet():
@@ -204,7 +212,7 @@ def replay(cases):
                 viol.append(("track/raised", "track history [%s] raised %r" % (label, ex), case))
             # ---------------- single coordinate objects, explicit bases
             try:
-                pos = used_geo(p2, p1) if (len(label) + int(abs(p2[0]) + abs(b1[1]))) % 2 == 0 else GeoCoords(*p2)
+                pos = used_geo(p2, p1) if (len(label) + int(abs(p2[0]) + abs(b1[1]))) % 2 == 0 else geo(p2)
                 cur = ("Geo",)
                 for si, s in enumerate(hist):
                     where = "point history [%s] step %d" % (label, si + 1)
